@@ -88,6 +88,7 @@ public:
     void bvisit(const Complex &x);
     void bvisit(const Integer &x);
     void bvisit(const RealDouble &x);
+    void bvisit(const Infty &x);
 #ifdef HAVE_SYMENGINE_PIRANHA
     void bvisit(const URatPSeriesPiranha &x);
     void bvisit(const UPSeriesPiranha &x);
